@@ -978,6 +978,10 @@ pub fn take_panic_loc() -> String {
 fn handle_panic(e: Box<dyn std::any::Any + Send>) {
     let _t = arena::track_off();
     set_phase(Phase::Harness);
+    if e.is::<exec::ViolationPanic>() || e.is::<exec::EndCasePanic>() {
+        // in-process mode: a verdict, not a library panic
+        std::panic::resume_unwind(e);
+    }
     if e.is::<Injected>() {
         // the caller of drop observed the panic: propagation is part of C11
         std::mem::forget(e);
@@ -1026,6 +1030,12 @@ fn digest_step(op_idx: usize) {
 }
 
 pub fn run_script(s: &Script, cfg: Cfg) -> ! {
+    run_script_body(s, cfg);
+    finish()
+}
+
+/// Interpret the whole script; returns normally when no view failed.
+pub fn run_script_body(s: &Script, cfg: Cfg) {
     arena::seed_layout(s.layout_seed, true);
     let digest = cfg.digest;
     let leaks = cfg.audit_leaks;
@@ -1100,7 +1110,6 @@ pub fn run_script(s: &Script, cfg: Cfg) -> ! {
             audit_memory(true);
         }
     }
-    finish()
 }
 
 pub fn finish() -> ! {
